@@ -82,7 +82,10 @@ divide_h!(divide_contract_f32, f32);
 /// D-ULP: near-vertical slivers at the resolution limit: x = 1 + i*ulp(1), i < 4; y small integers.
 /// Here the computed intersection can fall exactly below the left endpoint (corner case 1).
 fn ulp_x<F: Float>(i: u8) -> F {
-    let mut x = F::one();
+    ulp_x_from(F::one(), i)
+}
+fn ulp_x_from<F: Float>(base: F, i: u8) -> F {
+    let mut x = base;
     let mut k = 0;
     while k < i {
         x = x.nextafter(true);
@@ -91,6 +94,12 @@ fn ulp_x<F: Float>(i: u8) -> F {
     x
 }
 fn divide_ulp_body<F: Float>() {
+    divide_ulp_body_from::<F>(F::one())
+}
+/// base = 1: neighbouring abscissas differ by exactly EPSILON; base = 1/2: by EPSILON/2, so that
+/// tolerance-style comparisons (|dx| < EPSILON) and exact comparisons can be told apart
+fn divide_ulp_body_from<F: Float>(base: F) {
+    let ulp_x = |i: u8| ulp_x_from(base, i);
     let (i0, i1, ip) = (idx(3), idx(3), idx(3));
     let (y0, y1, yp) = (idx(4), idx(4), idx(4));
     kani::assume(i0 < i1 || (i0 == i1 && y0 < y1)); // left endpoint first
@@ -137,3 +146,10 @@ macro_rules! divide_ulp_h {
 }
 divide_ulp_h!(divide_ulp_f64, f64);
 divide_ulp_h!(divide_ulp_f32, f32);
+#[kani::proof]
+#[kani::unwind(5)]
+#[kani::stub(robust::orient2d, super::common::orient2d_stub)]
+#[kani::stub(std::collections::BinaryHeap::push, super::common::heap_push_record)]
+fn divide_ulp_half_f64() {
+    divide_ulp_body_from::<f64>(0.5)
+}
